@@ -35,10 +35,14 @@ func c05(c *Ctx) {
 		"Not decided: the behaviour of the wrapped primitives; rotation histories (manager side: C11)."
 	pfk := "internal/factoryutil.PrimitiveFromKey"
 	type site struct {
-		fn    *ssa.Function
-		call  *ssa.Call
-		entry ssa.Value
-		how   string
+		fn     *ssa.Function
+		call   *ssa.Call
+		keyArg ssa.Value // the key the primitive is built from, as seen in fn
+		entry  ssa.Value
+		how    string
+		// helper: the primitive is built in this named helper from its parameter;
+		// fn/call are then a call site of the helper
+		helper *ssa.Function
 	}
 	var sites []site
 	for _, f := range p.SortedFuncs(core.Product) {
@@ -50,16 +54,45 @@ func c05(c *Ctx) {
 			if n := guard.CalleeName(&call.Call); !strings.HasSuffix(n, pfk) {
 				return
 			}
-			sites = append(sites, site{fn: f, call: call})
+			sites = append(sites, site{fn: f, call: call, keyArg: call.Call.Args[0]})
 		})
 	}
+	// a named helper building the primitive from a key it is handed (newMonitoredX(key, keyID, …)):
+	// each call site of the helper stands for the site
+	var expanded []site
+	for _, s := range sites {
+		prm, isP := guard.Strip(s.keyArg).(*ssa.Parameter)
+		if !isP || s.fn.Parent() != nil || s.fn.Object() == nil || s.fn.Object().Exported() {
+			expanded = append(expanded, s)
+			continue
+		}
+		idx := -1
+		for i, q := range s.fn.Params {
+			if q == prm {
+				idx = i
+			}
+		}
+		n := 0
+		for _, caller := range p.SortedFuncs(core.Product) {
+			allInstrs(caller, func(ins ssa.Instruction) {
+				if c2, isC := ins.(*ssa.Call); isC && c2.Call.StaticCallee() == s.fn && idx >= 0 && idx < len(c2.Call.Args) {
+					expanded = append(expanded, site{fn: caller, call: c2, keyArg: c2.Call.Args[idx], helper: s.fn})
+					n++
+				}
+			})
+		}
+		if n == 0 {
+			expanded = append(expanded, s)
+		}
+	}
+	sites = expanded
 	r.Counts["PrimitiveFromKey_sites"] = len(sites)
 	c05Enabled(c)
 	for i := range sites {
 		s := &sites[i]
 		fid := core.FuncID(s.fn)
 		key := "C05.source/" + fid
-		kc, _ := guard.CallOf(s.call.Call.Args[0])
+		kc, _ := guard.CallOf(s.keyArg)
 		if kc == nil || !isEntryMethod(&kc.Call, "Key") {
 			r.Bad("C05.source", key, p.Pos(s.call.Pos()), "the key given to PrimitiveFromKey is not entry.Key() of a keyset entry")
 			continue
@@ -195,6 +228,25 @@ func c05(c *Ctx) {
 					"a primitive is registered under a key ID that is not entry.KeyID() of its own entry", "map key = entry.KeyID()")
 			}
 		})
+		if s.helper != nil {
+			allInstrs(s.helper, func(ins ssa.Instruction) {
+				base, fld, val, ok := guard.StoreField(ins)
+				if !ok || !keyIDField.MatchString(fld) || !isUint32(val.Type()) || core.ClassOf(pkgOfType(base.Type())) != core.Product {
+					return
+				}
+				good := false
+				if prm, isP := guard.Strip(val).(*ssa.Parameter); isP {
+					for i, q := range s.helper.Params {
+						if q == prm && i < len(s.call.Call.Args) {
+							vc, _ := guard.CallOf(s.call.Call.Args[i])
+							good = vc != nil && isEntryMethod(&vc.Call, "KeyID") && sameEntry(vc.Call.Args[0], s.entry)
+						}
+					}
+				}
+				r.Check(good, "C05.pairing", fmt.Sprintf("C05.pairing/%s/%s.%s via %s", fid, core.TypeID(base.Type()), fld, s.helper.Name()), p.Pos(ins.Pos()),
+					"the key ID stored next to the primitive in "+s.helper.Name()+" is not entry.KeyID() of the entry the primitive is built from", "= the helper's parameter, bound to entry.KeyID() at the call")
+			})
+		}
 		// (c) prefix: every use of a prefix for insertion/adapters comes from OutputPrefix(entry.Key())
 		allInstrs(s.fn, func(ins ssa.Instruction) {
 			call, ok := ins.(*ssa.Call)
